@@ -450,7 +450,7 @@ func c10Run(c *fw.Case) {
 // wrapSQL re-addresses the rich document's tables under `root` for Wrapped().
 func wrapSQL(sql string) string {
 	r := strings.NewReplacer(
-		"FROM t1", "FROM `root.t1`", "FROM u1", "FROM `root.u1`", "FROM mm", "FROM `root.mm`",
+		"FROM t1", "FROM `root.t1`", "FROM u1", "FROM `root.u1`", "FROM mm", "FROM `root.mm`", "FROM nn", "FROM `root.nn`", "JOIN nn", "JOIN `root.nn`",
 		"JOIN u1", "JOIN `root.u1`", "JOIN t1", "JOIN `root.t1`",
 		"`<-u1`", "`<-root.u1`", "`<-t1`", "`<-root.t1`", "`<-meta`", "`<-root.meta`",
 		"`t1.obj`", "`root.t1.obj`")
